@@ -148,6 +148,22 @@ func Special(r *rand.Rand) s2.Point {
 	}
 }
 
+// Denormalize replaces every zero (or denormal-scale) coordinate of p by a value k*2^-1074*2^e with k in
+// 1..8 and e in 0..50 and random sign, each with probability 2/3; the other coordinates keep their bits.
+func Denormalize(r *rand.Rand, p s2.Point) s2.Point {
+	co := []*float64{&p.X, &p.Y, &p.Z}
+	for _, x := range co {
+		if math.Abs(*x) < 1e-290 && r.Intn(3) != 0 {
+			v := math.Ldexp(float64(1+r.Intn(8)), -1074+r.Intn(51))
+			if r.Intn(2) == 0 {
+				v = -v
+			}
+			*x = v
+		}
+	}
+	return p
+}
+
 // Pool builds a pool of n points rich in exact and near degeneracies: points
 // on one special plane, duplicates, antipodes, ulp-neighbours, tiny
 // separations, plus a few uniform ones.
@@ -183,6 +199,14 @@ func Pool(r *rand.Rand, n int) []s2.Point {
 			p = s2.Point{Vector: v.Normalize()}
 			if r.Intn(2) == 0 {
 				p = NudgeUlps(r, p, 2)
+			}
+		case k == 11:
+			// zero coordinates of a special / pool point become denormal-scale values: exact determinants of
+			// such points need more than 2048 bits (terms of size 1 cancel down to 2^-2148)
+			if len(ps) > 0 && r.Intn(2) == 0 {
+				p = Denormalize(r, ps[r.Intn(len(ps))])
+			} else {
+				p = Denormalize(r, Special(r))
 			}
 		default:
 			p = OnPlane(r, plane)
